@@ -9,7 +9,7 @@ from common import MachineryError, Result, Work, dump_states, run_tlc
 
 
 class Scenario:
-    def __init__(self, name, plan, factory, evaluators, expect=None, tag_text=False, tag_data=False, project=None, describe=""):
+    def __init__(self, name, plan, factory, evaluators, expect=None, tag_text=False, tag_data=False, project=None, describe="", expected=None):
         self.name = name
         self.plan = PL.number_labels(plan)
         self.factory = factory            # () -> coroutine calling the real entry point
@@ -18,6 +18,7 @@ class Scenario:
         self.tag_text, self.tag_data = tag_text, tag_data
         self.project = project or (lambda r: r)
         self.describe = describe
+        self.expected = expected          # optional independent expectation for the (projected) result
 
 
 def reference_run(sc):
@@ -58,6 +59,10 @@ def check_scenario(sc, res: Result, work: Work, rng, max_all=400, extra_random=3
     kind, ref, started = reference_run(sc)
     labels = PL.all_labels(sc.plan)
     case0 = {"scenario": name, "describe": sc.describe}
+    if sc.expected is not None and (kind, ref) != ("ok", sc.expected):
+        res.violation(f"scenario {name} ({sc.describe}): result {ref} but every occurrence paired with its own value gives {sc.expected}",
+                      dict(case0, kind="pairing"))
+        return
     if sorted(started) != sorted(labels):
         res.violation(f"scenario {name}: the awaitables started by the code {sorted(started)} are not the ones the orchestration model derives "
                       f"{sorted(labels)}", dict(case0, kind="plan"))
